@@ -122,7 +122,10 @@ class Check:
 
     def count(self, quick, thorough):
         """number of cases for this tier, multiplied when the modelled code changed"""
-        return (quick if self.tier == "quick" else thorough) * self.boost
+        if self.tier == "quick":
+            return quick * self.boost
+        # VERIF_THOROUGH_SCALE deepens the thorough tier (more histories / configurations, not longer single streams)
+        return thorough * self.boost * max(1, int(os.environ.get("VERIF_THOROUGH_SCALE", "3")))
 
     def stat(self, key, n=1):
         self.stats[key] += n
@@ -215,6 +218,9 @@ class Check:
             cov["theorems"] = self.lean["theorems"]
             cov["generated_from"] = self.lean.get("generated", {})
             cov["lean_errors"] = self.lean.get("errors", [])[:5]
+            if self.lean.get("leanchecker"):
+                cov["leanchecker"] = self.lean["leanchecker"]
+                cov["checker_cmd"] += "; then `lake env leanchecker` on the property module(s) (thorough tier)"
         cov["trusted_base"] = self.trusted
         cov["explanation"] = self.extra.pop("explanation", "")
         if self.level == "translation_validation":
@@ -315,10 +321,19 @@ def lean_stage(check, pid, extra_targets=(), extra_props=()):
     with LeanLock():
         try:
             rep = py2lean.generate(REPO, os.path.join(LEAN_DIR, "IxaiVerif", "Gen"))
-            info["generated"] = {k: v["sha256"] for k, v in rep.items()}
+            info["generated"] = {k: v["sha256"] for k, v in rep.items() if not v.get("error")}
         except py2lean.Unsupported as ex:
             check.tie_failure("py2lean", f"translator rejects the current source: {ex}")
             info["errors"].append(f"py2lean: {ex}")
+            ns, names = theorem_names(pid)
+            info["obligations"] = len(names)
+            return False
+        needed = gen_closure([pid] + list(extra_props))
+        broken = {k: v["error"] for k, v in rep.items() if v.get("error") and k in needed}
+        if broken:
+            for k, err in broken.items():
+                check.tie_failure("py2lean", f"translator rejects the current source of {k}: {err}")
+                info["errors"].append(f"py2lean {k}: {err}")
             ns, names = theorem_names(pid)
             info["obligations"] = len(names)
             return False
@@ -334,6 +349,19 @@ def lean_stage(check, pid, extra_targets=(), extra_props=()):
         proc = subprocess.run(["lake", "build"] + targets, cwd=LEAN_DIR, capture_output=True, text=True)
         info["build_s"] = round(time.time() - t0, 1)
         out = proc.stdout + proc.stderr
+        if proc.returncode == 0 and check.tier == "thorough" and not os.environ.get("VERIF_NO_LEANCHECKER"):
+            # second opinion: the toolchain's independent re-checker replays the compiled declarations of the property module
+            # and of everything of ours it imports through the kernel
+            t1 = time.time()
+            mods = [f"IxaiVerif.Props.{p_}" for p_ in [pid] + list(extra_props)]
+            lc = subprocess.run(["lake", "env", "leanchecker"] + mods, cwd=LEAN_DIR, capture_output=True, text=True)
+            info["leanchecker"] = {"modules": mods, "exit": lc.returncode, "wall_s": round(time.time() - t1, 1)}
+            if lc.returncode != 0:
+                leanchecker_failed = (lc.stdout + lc.stderr)[-600:]
+            else:
+                leanchecker_failed = None
+        else:
+            leanchecker_failed = None
     for m in re.finditer(r"'(\S+)' depends on axioms: \[([^\]]*)\]", out):
         full, axs = m.group(1), [a.strip() for a in m.group(2).split(",") if a.strip()]
         info["theorems"][full] = axs
@@ -360,12 +388,71 @@ def lean_stage(check, pid, extra_targets=(), extra_props=()):
     if proc.returncode == 0 and info["discharged"] != info["obligations"]:
         ok = False
         check.tie_failure("audit", f"only {info['discharged']} of {info['obligations']} theorems reported their axioms")
+    if leanchecker_failed:
+        ok = False
+        check.tie_failure("leanchecker", f"independent re-check of the compiled property module failed: {leanchecker_failed}")
     hits = scan_forbidden()
     if hits:
         ok = False
         check.tie_failure("forbidden-token", "; ".join(hits[:5]))
     info["driver_ok"] = driver_available()
     return ok
+
+
+def soft_bridge(check):
+    """ADDITIONAL tie for the incremental explainers: `explain_one` of IncrementalPFI / IncrementalSage is translated statement by
+    statement into `do`-blocks over the effect monad (tools/py2lean_eff.py -> Gen/IncrementalPFI.lean, Gen/IncrementalSage.lean) and
+    Props/GenBridge.lean proves the generated definitions EQUAL to the hand-written pfiExplainM / sageExplainM that the property
+    theorems are about.  When the translator rejects the current source or the bridge no longer checks, the hand-written model is
+    still tied by the correspondence runs, so that alone is not reported: it raises the search budget (like a changed source
+    fingerprint) and is recorded in the evidence.  Returns True when the bridge is checked for the current source."""
+    sys.path.insert(0, os.path.join(VERIF, "tools"))
+    import py2lean_eff
+    info = {"status": "checked", "theorems": {}, "generated_from": {}}
+    check.extra["generated_explainer_bridge"] = info
+    with LeanLock():
+        rep = py2lean_eff.generate(REPO, os.path.join(LEAN_DIR, "IxaiVerif", "Gen"))
+        bad = {k: v["error"] for k, v in rep.items() if v.get("error")}
+        info["generated_from"] = {k: v["sha256"] for k, v in rep.items() if not v.get("error")}
+        if bad:
+            info["status"] = "unavailable: the statement-level translator rejects the current source"
+            info["translator_errors"] = bad
+        else:
+            ns, names = write_audit("GenBridge")
+            proc = subprocess.run(["lake", "build", "IxaiVerif.Audit.GenBridge"], cwd=LEAN_DIR, capture_output=True, text=True)
+            out = proc.stdout + proc.stderr
+            for m in re.finditer(r"'(\S+)' depends on axioms: \[([^\]]*)\]", out):
+                info["theorems"][m.group(1)] = [a.strip() for a in m.group(2).split(",") if a.strip()]
+            for m in re.finditer(r"'(\S+)' does not depend on any axioms", out):
+                info["theorems"][m.group(1)] = []
+            okc = proc.returncode == 0 and all(f"{ns}.{n}" in info["theorems"] and
+                                               all(a in ALLOWED_AXIOMS for a in info["theorems"][f"{ns}.{n}"]) for n in names)
+            if not okc:
+                info["status"] = "bridge no longer checks for the current source (generated explain_one differs from the hand model, or a proof broke)"
+                info["lean_errors"] = [ln for ln in out.splitlines() if ln.startswith("error:")][:5]
+    if info["status"] != "checked":
+        check.boost = max(check.boost, 4)
+        check.stat("generated_explainer_bridge_unavailable")
+        return False
+    return True
+
+
+def gen_closure(pids):
+    """names of the generated modules (Gen/X.lean) in the transitive import closure of Props/<pid>.lean and of the driver"""
+    seen, todo, gens = set(), [f"IxaiVerif.Props.{p}" for p in pids], set()
+    while todo:
+        m = todo.pop()
+        if m in seen:
+            continue
+        seen.add(m)
+        path = os.path.join(LEAN_DIR, *m.split(".")) + ".lean"
+        if not os.path.exists(path):
+            continue
+        for imp in re.findall(r"^import\s+(IxaiVerif\.\S+)", open(path).read(), re.M):
+            if imp.startswith("IxaiVerif.Gen."):
+                gens.add(imp.split(".")[-1])
+            todo.append(imp)
+    return gens
 
 
 def driver_available():
